@@ -778,6 +778,14 @@ def _ops(s):
 #     the instruction the disassembler reports at the encoded offset (two instructions sharing one payload)
 # =====================================================================================================
 def rule_payload_links_model(sink, repo):
+    """two model methods: a payload shared by two fill-array-data instructions in front of it, and a payload placed
+    BEFORE the instruction that refers to it (negative offset, legal)"""
+    _payload_links(sink, repo, "shared")
+    _payload_links(sink, repo, "backward")
+    return True
+
+
+def _payload_links(sink, repo, layout):
     """-> True if the model could be evaluated (violations, if any, have been reported); raises AnalysisError otherwise"""
     from fractions import Fraction
     md = Model(repo)
@@ -792,25 +800,33 @@ def rule_payload_links_model(sink, repo):
     if fad is None:
         raise AnalysisError("class FillArrayData vanished")
     payload = Obj(fad, "payload")
-    i0, i1, i3 = _Ins(0, 0x26), _Ins(1, 0x26), _Ins(3, 0x0E)
-    md.ins = [i0, i1, payload, i3]
     half = Fraction(1, 2)
-    # both fill-array-data instructions encode the offset of the same payload (instruction 2):  S_k + 2*ref_off_k = S_2
-    md.ins_attrs = {(0, "ref_off"): Lin({md.L[0]: half, md.L[1]: half}), (1, "ref_off"): Lin({md.L[1]: half})}
-    offsets = [S[0], S[1], S[2], S[3]]
+    if layout == "shared":
+        # both fill-array-data instructions encode the offset of the same payload (instruction 2):  S_k + 2*ref_off_k = S_2
+        md.ins = [_Ins(0, 0x26), _Ins(1, 0x26), payload, _Ins(3, 0x0E)]
+        md.ins_attrs = {(0, "ref_off"): Lin({md.L[0]: half, md.L[1]: half}), (1, "ref_off"): Lin({md.L[1]: half})}
+        users, ppos = (0, 1), 2
+        descr = "[fill-array-data, fill-array-data, payload, return-void] whose two fill-array-data instructions both encode the offset of the payload"
+    else:
+        # the payload precedes its user:  S_1 + 2*ref_off_1 = S_0 = 0, i.e. a negative branch offset
+        md.ins = [payload, _Ins(1, 0x26), _Ins(2, 0x0E)]
+        md.ins_attrs = {(1, "ref_off"): Lin({md.L[0]: -half})}
+        users, ppos = (1,), 0
+        descr = "[payload, fill-array-data, return-void] whose fill-array-data encodes the (negative) offset of the payload in front of it"
+    offsets = [S[0], S[1], S[2], S[3]][:len(md.ins)]
     names = {md.L[0]: "len0", md.L[1]: "len1", md.L[2]: "len2", L3: "len3"}
     base_method = md.method_hook
 
     def method_hook(it, recv, name, args, kwargs, e, func):
         if recv is payload:
             if name == "get_length":
-                return md.L[2]
+                return md.L[ppos]
             if name == "get_op_value":
                 return 0x0300
             return Sym("payload.%s" % name)
         if recv is md.method:
             if name == "get_instructions_idx":
-                return [(offsets[k], md.ins[k]) for k in range(4)]
+                return [(offsets[k], md.ins[k]) for k in range(len(md.ins))]
             if name == "get_instructions":
                 return list(md.ins)
             if name == "get_name":
@@ -818,7 +834,7 @@ def rule_payload_links_model(sink, repo):
             if name == "get_code_off":
                 return 0
         if recv is md.dcode and name == "get_ins_off" and len(args) == 1:
-            for k in range(4):
+            for k in range(len(md.ins)):
                 if _same(args[0], offsets[k]):
                     return md.ins[k]
             if _norm(args[0]) is None:
@@ -877,7 +893,7 @@ def rule_payload_links_model(sink, repo):
         if not isinstance(blocks, list) or not blocks or not all(isinstance(b, Obj) for b in blocks):
             raise AnalysisError("MethodAnalysis._create_basic_block: no basic blocks in the model run")
         out = []
-        for k in (0, 1):
+        for k in users:
             got = []
             for b in blocks:
                 g = b.cls.lookup("get_special_ins")
@@ -893,17 +909,18 @@ def rule_payload_links_model(sink, repo):
             raise AnalysisError("MethodAnalysis._create_basic_block raises %s in the model" % r)
     sink.analysed(f)
     for asg, r in res:
-        for k, got in zip((0, 1), r):
+        for k, got in zip(users, r):
             hit = [g for g in got if g is not None]
             ok = len(hit) >= 1 and all(g is payload for g in hit)
             shown = "nothing (None)" if not hit else ", ".join(show(g)[:40] for g in hit)
             if hit and not all(isinstance(g, (Obj, _Ins)) for g in hit):
                 raise AnalysisError("get_special_ins: result %s is outside the interpreter's fragment" % shown)
             sink.count("payload_links_end_to_end")
-            sink.check("payload-link", "fill-array-data %d of 2 sharing one payload" % (k + 1), ok, f,
-                       "get_special_ins(offset of fill-array-data #%d) -> %s" % (k + 1, shown),
-                       "model method [fill-array-data, fill-array-data, payload, return-void] whose two fill-array-data instructions both encode the offset of the payload: "
+            tag = "fill-array-data #%d" % (k + 1) if layout == "shared" else "the fill-array-data behind its payload"
+            sink.check("payload-link", "%s (%s layout)" % (tag, layout), ok, f,
+                       "get_special_ins(offset of %s) -> %s" % (tag, shown),
+                       "model method %s: "
                        "after _create_basic_block, get_special_ins(%s) is %s; the disassembler reports the fill-array-data-payload at the encoded offset %s" % (
-                           render(offsets[k], names), shown, render(offsets[2], names)),
+                           descr, render(offsets[k], names), shown, render(offsets[ppos], names)),
                        detail="linked to the payload the disassembler reports at the encoded offset")
     return True
